@@ -144,28 +144,29 @@ func VerifC18_EmbeddedThenFields() {
 	verifReach("c18.embedded")
 }
 
-// fixed-value tags on byte fields (decimal and hexadecimal): emitted on encode whatever the struct holds,
+// fixed-value tags on byte fields (decimal, 0x and 0X hexadecimal): emitted on encode whatever the struct holds,
 // enforced on decode
 type vValueTags struct {
 	MsgType types.MsgType `uhppote:"value:0x5a"`
 	Magic1  byte          `uhppote:"offset:8, value:0x55"`
 	Magic2  byte          `uhppote:"offset:9, value:170"`
 	Value   uint8         `uhppote:"offset:10"`
+	Magic3  byte          `uhppote:"offset:11, value:0X5f"`
 	Last    byte          `uhppote:"offset:63, value:0xAA"`
 }
 
 func VerifC18_ValueTags() {
-	v := vValueTags{Magic1: nondetU8("m1"), Magic2: nondetU8("m2"), Value: nondetU8("value"), Last: nondetU8("last")}
+	v := vValueTags{Magic1: nondetU8("m1"), Magic2: nondetU8("m2"), Value: nondetU8("value"), Magic3: nondetU8("m3"), Last: nondetU8("last")}
 	b, err := Marshal(v)
 	verifAssert(err == nil && len(b) == 64, "value tags: encodes")
 	if err == nil && len(b) == 64 {
 		want := make([]byte, 64)
-		want[0], want[1], want[8], want[9], want[10], want[63] = 0x17, 0x5a, 0x55, 170, v.Value, 0xaa
+		want[0], want[1], want[8], want[9], want[10], want[11], want[63] = 0x17, 0x5a, 0x55, 170, v.Value, 0x5f, 0xaa
 		verifAssertEqBytes(b, want, "value tags: fixed values are emitted whatever the field holds")
 		var back vValueTags
 		verifAssert(Unmarshal(b, &back) == nil && back.Value == v.Value, "value tags: the encoding decodes")
-		k := nondetEnum("which", 3)
-		pos := []int{8, 9, 63}[k]
+		k := nondetEnum("which", 4)
+		pos := []int{8, 9, 11, 63}[k]
 		b[pos] = nondetU8("other")
 		verifAssume(b[pos] != want[pos])
 		var bad vValueTags
